@@ -25,17 +25,42 @@ package query
 //@   requires len(s) >= 2 && forall(k, 0, len(s), len(s[k]) >= 1)
 //@   modifies t.SubQuery, t.Key, t.ConverterName, t.Value
 
+// Host masks (C03, translation of "/n" suffixes): bit j of a mask (j counts from the most significant bit
+// of the first byte) is mbit(mask, j). One suffix /n flips, in the IPv4 mask (32 bits) and in the IPv6
+// mask (128 bits), the first n bits when n > 0 and the last -n bits when n < 0 (the IPv4 mask only when
+// -n <= 32); several suffixes flip one after the other. The loops are proved against that: within the
+// processing of one suffix every bit equals its value at the start of that suffix, flipped exactly when it
+// lies in the part of the range the loop has passed.
+//@ log strconv.ParseInt
+// assumed: fmt.Errorf returns an error
+//@ extern fmt.Errorf(format, args) err
+//@   ensures !isnil(err)
+//@ pure mbit(m []byte, j int) bool = bitset(m[j/8], 7 - j%8)
 //@ func (*maskParser).Capture
 //@   requires forall(k, 0, len(s), len(s[k]) >= 1)
 //@   modifies p.V4Mask, p.V6Mask
 //@   loop 1 invariant -1 <= rangeindex && rangeindex < len(s) && len(p.V4Mask) == 4 && len(p.V6Mask) == 16
+//@   loop 1 invariant single@C03: implies(rangeindex == -1, forall(j, 0, 32, !mbit(p.V4Mask, j)) && forall(j, 0, 128, !mbit(p.V6Mask, j)))
+//@   loop 1 invariant first_done@C03: implies(rangeindex == 0, ncalls("strconv.ParseInt") == 1 && \
+//@       forall(j, 0, 32, mbit(p.V4Mask, j) == ((calllog("strconv.ParseInt", 0)[0] > 0 && j < calllog("strconv.ParseInt", 0)[0]) || (calllog("strconv.ParseInt", 0)[0] < 0 && calllog("strconv.ParseInt", 0)[0] >= -32 && j >= 32 + calllog("strconv.ParseInt", 0)[0]))) && \
+//@       forall(j, 0, 128, mbit(p.V6Mask, j) == ((calllog("strconv.ParseInt", 0)[0] > 0 && j < calllog("strconv.ParseInt", 0)[0]) || (calllog("strconv.ParseInt", 0)[0] < 0 && j >= 128 + calllog("strconv.ParseInt", 0)[0]))))
+//@   loop 1 invariant calls: ncalls("strconv.ParseInt") == rangeindex + 1
 //@   loop 1 decreases len(s) - rangeindex
-//@   loop 2 invariant 0 <= i && len(p.V4Mask) == 4 && len(p.V6Mask) == 16
+//@   loop 2 invariant 0 <= i && i <= n && len(p.V4Mask) == 4 && len(p.V6Mask) == 16
+//@   loop 2 invariant prefix4@C03: forall(j, 0, 32, mbit(p.V4Mask, j) == (at_loop(1, mbit(p.V4Mask, j)) != (j < i)))
+//@   loop 2 invariant prefix6@C03: i <= 128 && forall(j, 0, 128, mbit(p.V6Mask, j) == (at_loop(1, mbit(p.V6Mask, j)) != (j < i)))
 //@   loop 2 decreases n - i
 //@   loop 3 invariant 0 <= i && len(p.V4Mask) == 4 && len(p.V6Mask) == 16
+//@   loop 3 invariant suffix6@C03: n + 128 <= i && i <= 128 && forall(j, 0, 128, mbit(p.V6Mask, j) == (at_loop(1, mbit(p.V6Mask, j)) != (n + 128 <= j && j < i)))
+//@   loop 3 invariant keep4@C03: forall(j, 0, 32, mbit(p.V4Mask, j) == at_loop(1, mbit(p.V4Mask, j)))
 //@   loop 3 decreases 128 - i
 //@   loop 4 invariant 0 <= i && len(p.V4Mask) == 4 && len(p.V6Mask) == 16
+//@   loop 4 invariant suffix4@C03: n + 32 <= i && i <= 32 && forall(j, 0, 32, mbit(p.V4Mask, j) == (at_loop(1, mbit(p.V4Mask, j)) != (n + 32 <= j && j < i)))
+//@   loop 4 invariant done6@C03: forall(j, 0, 128, mbit(p.V6Mask, j) == (at_loop(1, mbit(p.V6Mask, j)) != (n + 128 <= j)))
 //@   loop 4 decreases 32 - i
+//@   ensures one_suffix@C03: implies(len(s) == 1 && isnil(result), \
+//@       forall(j, 0, 32, mbit(p.V4Mask, j) == ((calllog("strconv.ParseInt", 0)[0] > 0 && j < calllog("strconv.ParseInt", 0)[0]) || (calllog("strconv.ParseInt", 0)[0] < 0 && calllog("strconv.ParseInt", 0)[0] >= -32 && j >= 32 + calllog("strconv.ParseInt", 0)[0]))) && \
+//@       forall(j, 0, 128, mbit(p.V6Mask, j) == ((calllog("strconv.ParseInt", 0)[0] > 0 && j < calllog("strconv.ParseInt", 0)[0]) || (calllog("strconv.ParseInt", 0)[0] < 0 && j >= 128 + calllog("strconv.ParseInt", 0)[0]))))
 
 // cleanNumberConditions: every loop terminates, for every list of number conditions (run-time checks are
 // assumed to pass here; each loop is verified from its invariant alone).
